@@ -72,6 +72,14 @@ Theorem c05_stored_then_served secs r lazy_ttl now e now1 now2 :
 Proof. exact (stored_then_served secs r lazy_ttl now e now1 now2). Qed.
 Print Assumptions c05_stored_then_served.
 
+(** in particular an ordinary answer is not served once its smallest TTL has run out *)
+Theorem c05_not_served_after_min_ttl secs r lazy_ttl now e now1 now2 :
+  save r lazy_ttl now = Some e -> lazy_ttl <= 0 -> m_rcode r = 0%N -> has_answer r = true ->
+  now1 <= now2 -> now + Z.of_N (min_ttl r) * second <= now2 ->
+  get_resp_with secs false now1 now2 (Some e) = None.
+Proof. exact (not_served_after_min_ttl secs r lazy_ttl now e now1 now2). Qed.
+Print Assumptions c05_not_served_after_min_ttl.
+
 (** ** Lazy caching *)
 
 (** message expired, entry still in the cache: served with every non-OPT TTL
@@ -246,3 +254,20 @@ Example c05_nonvacuous :
     get_resp true 60000000001 60000000001 (Some e') = None /\
     in_flight 0 (sf_run sf_init [StaleHit 0; StaleHit 0; StaleHit 1; FnReturn 0 0; Cleanup 0 0; StaleHit 0]) = 1%N.
 Proof. eexists; eexists. repeat split; try (vm_compute; reflexivity). vm_compute. discriminate. Qed.
+
+(** The binary64 seconds of the running code against whole seconds, sampled
+    where rounding is worst (999999999 ns past a whole second, every power of
+    two up to 2^24 s and the seconds just below): equal. The bound is sharp:
+    at 2^24 s + 999999999 ns the code counts one second more; beyond 2^32 s
+    the count wraps; a time.Duration saturates at 2^63-1 ns. *)
+Example c05_float_seconds_sampled :
+  forallb (fun k => let s := Z.pow 2 (Z.of_nat k) in
+             (secs_go ((s - 1) * second + 999999999) =? s - 1) &&
+             (secs_go ((s - 2) * second + 999999999) =? s - 2) &&
+             (secs_go (s * second) =? s))
+          (seq 1 24) = true /\
+  secs_go (16777215 * second + 999999999) = 16777215 /\
+  secs_go (16777216 * second + 999999999) = 16777217 /\
+  elapsed_with secs_go (4294967297 * second) 0 = 1%N /\
+  elapsed_with secs_go (10000000000 * second) 0 = 633437444%N.
+Proof. vm_compute. repeat split; reflexivity. Qed.
